@@ -2,7 +2,7 @@
     arithmetic of the hand-written model and of the specifications - for all integers.  A change of any of these
     expressions in /repo changes [Gen/Exprs.v] and these lemmas have to be re-proved against it. *)
 From Coq Require Import ZArith QArith List Bool Lia.
-From VD Require Import Base.Bytes Gen.Exprs Model.Rfb Model.Pointer Model.Auth Model.ClientOps Model.Script
+From VD Require Import Base.Bytes Gen.Exprs Model.Rfb Model.ClientMsgs Model.Keys Model.Pointer Model.Auth Model.ClientOps Model.Script
                        Proofs.HextileP Proofs.ZrleP.
 Import ListNotations.
 Open Scope Z_scope.
@@ -170,3 +170,75 @@ Qed.
 
 Theorem timeout_is_wall_clock t w : (gen_timeout_delay t w == t)%Q.
 Proof. apply timeout_delay_tie. Qed.
+
+(** ** pointer operations: the attribute updates and the event written are the source's own; a negative shift count
+    (button < 1) is Python's ValueError *)
+Definition apply_ptr (r : (Z * Z * Z) * (Z * Z * Z)) : ptr * option bytes :=
+  let '((x', y', m'), (ex, ey, em)) := r in (mk_ptr x' y' m', pointerEvent ex ey em).
+
+Theorem mouseMove_is_source s x y :
+  mouseMove s x y = apply_ptr (gen_mouseMove (px s) (py s) (pbuttons s) x y).
+Proof. reflexivity. Qed.
+
+Theorem mouseDown_is_source s b :
+  mouseDown s b =
+  if gen_mouseDown_defined (px s) (py s) (pbuttons s) b then apply_ptr (gen_mouseDown (px s) (py s) (pbuttons s) b) else (s, None).
+Proof.
+  unfold mouseDown, gen_mouseDown_defined. destruct (Z.ltb_spec (b - 1) 0) as [H|H].
+  - replace (0 <=? b - 1) with false by (symmetry; apply Z.leb_gt; lia). reflexivity.
+  - replace (0 <=? b - 1) with true by (symmetry; apply Z.leb_le; lia). reflexivity.
+Qed.
+
+Theorem mouseUp_is_source s b :
+  mouseUp s b =
+  if gen_mouseUp_defined (px s) (py s) (pbuttons s) b then apply_ptr (gen_mouseUp (px s) (py s) (pbuttons s) b) else (s, None).
+Proof.
+  unfold mouseUp, gen_mouseUp_defined. destruct (Z.ltb_spec (b - 1) 0) as [H|H].
+  - replace (0 <=? b - 1) with false by (symmetry; apply Z.leb_gt; lia). reflexivity.
+  - replace (0 <=? b - 1) with true by (symmetry; apply Z.leb_le; lia). reflexivity.
+Qed.
+
+(** ** key operations: the passes over the decoded keys (direction, down-flag) are the source's own *)
+Fixpoint run_passes (passes : list (bool * bool)) (keys : list Z) : option bytes :=
+  match passes with
+  | [] => Some []
+  | (rv, down) :: r =>
+      match key_events (if down then 1 else 0) (if rv then rev keys else keys), run_passes r keys with
+      | Some a, Some b => Some (a ++ b)
+      | _, _ => None
+      end
+  end.
+
+Theorem keyPress_is_source fc up key :
+  keyPress fc up key = match decode_key fc up key with None => None | Some keys => run_passes gen_keyPress_passes keys end.
+Proof.
+  unfold keyPress, gen_keyPress_passes. destruct (decode_key fc up key) as [keys|]; [|reflexivity].
+  cbn [run_passes]. destruct (key_events 1 keys) as [a|]; [|reflexivity].
+  destruct (key_events 0 (rev keys)) as [b|]; [|reflexivity]. rewrite app_nil_r. reflexivity.
+Qed.
+
+Theorem keyDown_is_source fc up key :
+  keyDown fc up key = match decode_key fc up key with None => None | Some keys => run_passes gen_keyDown_passes keys end.
+Proof.
+  unfold keyDown, gen_keyDown_passes. destruct (decode_key fc up key) as [keys|]; [|reflexivity].
+  cbn [run_passes]. destruct (key_events 1 keys) as [a|]; [|reflexivity]. rewrite app_nil_r. reflexivity.
+Qed.
+
+Theorem keyUp_is_source fc up key :
+  keyUp fc up key = match decode_key fc up key with None => None | Some keys => run_passes gen_keyUp_passes keys end.
+Proof.
+  unfold keyUp, gen_keyUp_passes. destruct (decode_key fc up key) as [keys|]; [|reflexivity].
+  cbn [run_passes]. destruct (key_events 0 keys) as [a|]; [|reflexivity]. rewrite app_nil_r. reflexivity.
+Qed.
+
+Theorem pointer_ops_are_source s x y b :
+  mouseMove s x y = apply_ptr (gen_mouseMove (px s) (py s) (pbuttons s) x y) /\
+  mouseDown s b = (if gen_mouseDown_defined (px s) (py s) (pbuttons s) b then apply_ptr (gen_mouseDown (px s) (py s) (pbuttons s) b) else (s, None)) /\
+  mouseUp s b = (if gen_mouseUp_defined (px s) (py s) (pbuttons s) b then apply_ptr (gen_mouseUp (px s) (py s) (pbuttons s) b) else (s, None)).
+Proof. split; [apply mouseMove_is_source|]. split; [apply mouseDown_is_source|apply mouseUp_is_source]. Qed.
+
+Theorem key_passes_are_source fc up key :
+  keyPress fc up key = (match decode_key fc up key with None => None | Some keys => run_passes gen_keyPress_passes keys end) /\
+  keyDown fc up key = (match decode_key fc up key with None => None | Some keys => run_passes gen_keyDown_passes keys end) /\
+  keyUp fc up key = (match decode_key fc up key with None => None | Some keys => run_passes gen_keyUp_passes keys end).
+Proof. split; [apply keyPress_is_source|]. split; [apply keyDown_is_source|apply keyUp_is_source]. Qed.
